@@ -711,58 +711,78 @@ func codecPrecedence(c *Ctx, rule string, withClient bool) {
 
 func c06Responses(c *Ctx) {
 	r := c.R
-	info := c.P.Pkg(pkgOpenAPI).TypesInfo
-	// buildResponses: code → reference
+	_ = c.P.Pkg(pkgOpenAPI)
+	// buildResponses: interpreted on a concrete method (libopenapi constructors modelled as identities); the
+	// evaluated response map gives code → referenced schema, however the function is written
 	if f := c.P.Func(pkgOpenAPI, "Generator.buildResponses"); f != nil {
 		decl := c.P.Decls[f]
-		// resp var → ref canon ; code → resp var
-		refOf := map[string]string{}
-		codeOf := map[string]string{}
-		ast.Inspect(decl.Body, func(n ast.Node) bool {
-			call, ok := n.(*ast.CallExpr)
-			if !ok {
-				return true
+		pos := c.P.Pos(decl.Pos())
+		prevC, prevE := c.W.Concrete, c.W.ExternStructs
+		c.W.Concrete, c.W.ExternStructs = true, true
+		out := cMessage("ZqOutput", fld("v", "string"))
+		meth := cMethod("DoIt", cMessage("ZqInput", fld("v", "string")), out, nil)
+		g := cstruct("Generator", map[string]Val{"schemas": &VStruct{Name: "omap", Fields: map[string]Val{}}})
+		run := c.W.NewRun(map[string]int{}, false)
+		run.InlineAll, run.FollowSlices = true, true
+		run.CallHook = c.xHookT
+		run.StartArgs(f, map[string]Val{"g": g, "method": meth})
+		c.W.Concrete, c.W.ExternStructs = prevC, prevE
+		got := map[string]string{}
+		if len(run.Used) > 0 || run.Aborted != "" {
+			r.Undec("R06g", "responses of a concrete operation", pos, fmt.Sprintf("buildResponses does not evaluate: open decisions %v aborted %q", usedKeys(run), run.Aborted))
+		} else {
+			// Responses{Codes: omap{code → Response{Content: omap{"application/json" → MediaType{Schema: $ref}}}}, Default: Response}
+			var collect func(v Val, code string)
+			refOf := func(resp Val) string {
+				rs, ok := resp.(*VStruct)
+				if !ok {
+					return ""
+				}
+				content, ok := rs.Fields["Content"].(*VStruct)
+				if !ok {
+					return ""
+				}
+				mt, ok := content.Fields["application/json"].(*VStruct)
+				if !ok {
+					return ""
+				}
+				if ref, ok := mt.Fields["Schema"].(*VStruct); ok && ref.Name == "$ref" {
+					return valText(ref.Fields["ref"])
+				}
+				return ""
 			}
-			sel, ok := call.Fun.(*ast.SelectorExpr)
-			if !ok || sel.Sel.Name != "Set" || len(call.Args) != 2 {
-				return true
-			}
-			recv := types.ExprString(sel.X)
-			if strings.HasSuffix(recv, ".Content") {
-				// X.Content.Set("application/json", &v3.MediaType{Schema: CreateSchemaProxyRef(...)})
-				ast.Inspect(call.Args[1], func(m ast.Node) bool {
-					if rc, ok := m.(*ast.CallExpr); ok {
-						if cal := Callee(info, rc); cal != nil && cal.Name() == "CreateSchemaProxyRef" {
-							refOf[strings.TrimSuffix(recv, ".Content")] = c.refNameCanon(info, decl.Body, rc.Args[0], 0)
+			collect = func(v Val, code string) {
+				st, ok := v.(*VStruct)
+				if !ok {
+					return
+				}
+				if st.Name == "omap" {
+					for k, e := range st.Fields {
+						if rf := refOf(e); rf != "" {
+							got[k] = rf
 						}
 					}
-					return true
-				})
-			}
-			if recv == "responses" {
-				if tv, ok := info.Types[call.Args[0]]; ok && tv.Value != nil {
-					codeOf[strings.Trim(tv.Value.ExactString(), `"`)] = types.ExprString(call.Args[1])
+					return
+				}
+				if rf := refOf(st); rf != "" && code != "" {
+					got[code] = rf
+				}
+				for k, e := range st.Fields {
+					next := ""
+					if k == "Default" {
+						next = "default"
+					}
+					collect(e, next)
 				}
 			}
-			return true
-		})
-		want := map[string]string{"200": "fmt(#/components/schemas/%s;NAME.Name(M))", "400": "const:#/components/schemas/ValidationError", "default": "const:#/components/schemas/Error"}
-		for _, code := range []string{"200", "400", "default"} {
-			got := refOf[codeOf[code]]
-			r.Check(got == want[code], "R06g", "response "+code+" references "+strings.TrimPrefix(strings.TrimPrefix(want[code], "const:"), "fmt("), c.P.Pos(decl.Pos()),
-				fmt.Sprintf("buildResponses publishes for %s the schema %q (expected %q): the body the server writes for that status is described by another schema", code, got, want[code]))
+			collect(run.Result, "")
+			want := map[string]string{"200": "#/components/schemas/ZqOutput", "400": "#/components/schemas/ValidationError", "default": "#/components/schemas/Error"}
+			for _, code := range []string{"200", "400", "default"} {
+				r.Check(got[code] == want[code], "R06g", "response "+code+" references "+strings.TrimPrefix(want[code], "#/components/schemas/"), pos,
+					fmt.Sprintf("buildResponses (evaluated for an RPC whose output message is ZqOutput) publishes for %s the schema %q (expected %q): the body the server writes for that status is described by another schema", code, got[code], want[code]))
+			}
+			r.Check(len(got) == 3, "R06g", "exactly the responses 200, 400 and default are published", pos, fmt.Sprintf("buildResponses publishes the responses %v", sortedKeys(got)))
 		}
-		// the 200 reference is the method's output
-		okOut := false
-		ast.Inspect(decl.Body, func(n ast.Node) bool {
-			if call, ok := n.(*ast.CallExpr); ok {
-				if cal := Callee(info, call); cal != nil && cal.Name() == "getSchemaName" && len(call.Args) == 1 && types.ExprString(call.Args[0]) == "method.Output" {
-					okOut = true
-				}
-			}
-			return true
-		})
-		r.Check(okOut, "R06g", "the 200 schema is the RPC's output message", c.P.Pos(decl.Pos()), "buildResponses does not name the success schema after method.Output")
 	} else {
 		r.Unres("R06g", "buildResponses", "", "not found")
 	}
